@@ -129,7 +129,18 @@ def pPkt (ts : List String) : Option Pkt := do
     pure ⟨src, dst, ← sp.toNat?, ← dp.toNat?, ← ipv.toNat?, ← l4.toNat?, pn, ← dscp.toNat?, mac, dom⟩
   | _ => none
 
+/-- diagnostics only (evidence: which rule decided); not part of any theorem -/
+def hitIndex (p : Pkt) : List SRule → Nat → Option Nat
+  | [], _ => none
+  | r :: rs, i =>
+    if sruleHolds p r then
+      match r.out with
+      | .final _ => some i
+      | .mustRules => hitIndex p rs (i + 1)
+    else hitIndex p rs (i + 1)
+
 structure St where
+  diag : Bool := false
   prog : List (Entry MCond Out) := []
   rules : List SRule := []
   fb : Out := ⟨0, 0, false⟩
@@ -144,7 +155,7 @@ def step (st : St) (line : String) : St × String :=
     match pProg ts with
     | some ((rules, fb), []) =>
       let prog := compileProgram rules fb
-      ({ prog := prog, rules := rules, fb := fb }, "ok")
+      ({ st with prog := prog, rules := rules, fb := fb }, "ok")
     | _ => (st, "bad-op")
   | "pkt" :: ts =>
     match pPkt ts with
@@ -153,7 +164,10 @@ def step (st : St) (line : String) : St × String :=
       -- proved equal (Props.match_is_first_match), the driver prints the scan and flags any difference
       let a := matchAt st.rules st.fb p   -- incremental build + evaluation by position, as the code does
       let b := firstMatchS p st.rules st.fb false
-      (st, outStr a ++ (if a == some b then "" else " SPEC-DIFFERS " ++ outStr (some b)))
+      let d := if st.diag then (match hitIndex p st.rules 0 with
+        | some i => s!" hit={i}/{st.rules.length}"
+        | none => s!" hit=fb/{st.rules.length}") else ""
+      (st, outStr a ++ (if a == some b then "" else " SPEC-DIFFERS " ++ outStr (some b)) ++ d)
     | none => (st, "bad-op")
   | ["route", is4, dst] =>
     match hexToNat? dst with
@@ -161,4 +175,4 @@ def step (st : St) (line : String) : St × String :=
     | none => (st, "bad-op")
   | _ => (st, "bad-op")
 
-def main : IO Unit := lineLoopS ({} : St) step
+def main (args : List String) : IO Unit := lineLoopS ({ diag := args.contains "--diag" } : St) step
